@@ -15,6 +15,10 @@ lists of ints.  Nothing in the oracle imports or introspects the library.
              bytearray, a list with None at every location that is not the value's own, images that end right
              behind the value or are longer than a bank (all forms for generated cases and replays, taking turns
              in the enumerations); all must give the reference's result and leave the caller's object unchanged.
+             The class methods that take one value's raw bytes (check_raw, raw_to_value, is_valid) are also handed the
+             same bytes as a bytearray and as an instance of a bytes subclass: same answer as for bytes, nothing raised,
+             the caller's object unchanged (every MASK / TMASK result, every generated / replayed case, every tenth case of the
+             enumerations).
 (d) history  fresh interpreters in which a program declares its own banks and values of every width 1..8
              (NumericValue signed/unsigned, energy.ScaledNumericValue; with/without MASK/TMASK support) before,
              between and after importing the library's bank modules in several orders: afterwards every library
@@ -59,7 +63,8 @@ RULE = ("(class, raw) pairs: complete enumeration of all byte strings for every 
         "code (CCT 0xFFFE, version 0xFF); inverse: (class, in-range number) and (class, ASCII string) pairs; "
         "layout: one case per table row and per bank object plus generated 255-byte bank images; every decode case "
         "x the form the bank image is handed over in (list / tuple / bytes / bytearray / None elsewhere / shorter / "
-        "longer); history: (declaration/import history in a fresh interpreter, value class, boundary byte string), "
+        "longer) and, for check_raw / raw_to_value / is_valid, the raw bytes handed over as bytes / bytearray / an "
+        "instance of a bytes subclass; history: (declaration/import history in a fresh interpreter, value class, boundary byte string), "
         "non-trivial = the reference says MASK or TMASK; limits: (declaration with min_value / max_value, byte string), "
         "non-trivial as for decode; declare: (bank flags, sequence of declarations with per-location access types), "
         "non-trivial = some declaration has to be refused or mixes access types")
@@ -81,6 +86,10 @@ ASSUMPTIONS = [
     "bytearray), with None at locations that do not belong to the value, ending anywhere behind the value's last "
     "location or longer than 255 entries - all of which the library accepts today; what it does when one of the "
     "value's OWN locations is None or missing is not judged",
+    "check_raw / raw_to_value / is_valid take 'raw bytes': bytes, a bytearray or an instance of a bytes subclass holding "
+    "the same data must give the same answer (identical flag / None / bool, equal value of the same type) - the unchanged "
+    "library does for every value class; lists / tuples of ints and memoryviews are not exercised (today a list never "
+    "matches the MASK / TMASK pattern and strings cannot be decoded from either)",
     "declaration histories: a program may declare banks and values of its own with MemoryBank, MemoryRange / "
     "MemoryLocation, NumericValue and dali.memory.energy.ScaledNumericValue and the class attributes the library's own "
     "modules use (bank, locations, signed, mask_supported, tmask_supported, max_value, unit), at any point relative to "
@@ -281,6 +290,67 @@ def _spell(form, img, cls):
     raise ValueError(form)
 
 
+# The raw data of ONE value in the forms a program may hold it in when it calls the class methods that take raw bytes
+# directly (check_raw, raw_to_value, is_valid): what it read off the bus into a bytearray, or an instance of its own
+# bytes subclass.  The unchanged library gives the same answers for these as for bytes, for every value class; it does
+# NOT for lists / tuples of ints (a list never equals the MASK / TMASK pattern, a string cannot be split) nor, for
+# strings, for memoryviews - those are not exercised.
+RAW_FORMS = ("bytearray", "bytes-subclass")
+
+
+class _RawBytes(bytes):
+    """A program's own bytes subclass (adds nothing)."""
+
+
+def _spell_raw(form, raw):
+    if form == "bytearray":
+        return bytearray(raw)
+    if form == "bytes-subclass":
+        return _RawBytes(raw)
+    raise ValueError(form)
+
+
+def _raw_forms_for(forms, raw):
+    """Which raw spellings go with a decode case: all of them when it is decoded from every bank-image form (boundary
+    sets of the replays, Hypothesis cases), else - in the enumerations, where the image forms take turns - one of them
+    with every tenth case (whenever it is the turn of the first image form)."""
+    if len(forms) != 1:
+        return RAW_FORMS
+    return (RAW_FORMS[(raw[-1] >> 4) % len(RAW_FORMS)],) if forms[0] == FORMS[0] else ()
+
+
+def _check_raw_forms(cls, raw, f, rawforms):
+    """The class methods that take raw bytes, handed the same bytes as another bytes-like object, must do what they do
+    with bytes.  f: what check_raw(raw) returned."""
+    name = cls.__name__
+    if not rawforms:
+        return []
+    calls = [("check_raw", f)]
+    try:
+        calls.append(("is_valid", cls.is_valid(raw)))
+    except Exception as e:  # noqa
+        return [("C11:decode-raised:" + name, "%s.is_valid([%s]) raised %r" % (name, _hex(raw), e))]
+    if f is None:
+        calls.append(("raw_to_value", cls.raw_to_value(raw)))       # did not raise a moment ago
+    for rf in rawforms:
+        for meth, want in calls:
+            given = _spell_raw(rf, raw)
+            try:
+                got = getattr(cls, meth)(given)
+            except Exception as e:  # noqa
+                return [("C11:raw-bytes-spelling:%s-raised:%s" % (meth, name), "%s.%s([%s] given as %s) raised %r; given as "
+                         "bytes it returns %r" % (name, meth, _hex(raw), rf, e, want))]
+            if bytes(given) != raw:
+                return [("C11:raw-bytes-spelling:%s-modified-callers-bytes:%s" % (meth, name), "%s.%s([%s] given as %s) changed "
+                         "the caller's object to [%s]" % (name, meth, _hex(raw), rf, _hex(bytes(given))))]
+            same = (got is want) if (want is None or isinstance(want, (bool, _lib()["location"].FlagValue))) else \
+                (type(got) is type(want) and got == want)
+            if not same:
+                return [("C11:raw-bytes-spelling:%s-differs:%s" % (meth, name), "%s.%s([%s]) returns %r when the bytes are "
+                         "given as %s, %r when given as bytes" % (name, meth, _hex(raw), got, rf, want))]
+    return []
+
+
 def _check_decode(cls, row, raw, forms=FORMS):
     """raw: bytes of the row's width.  Returns [(sig, msg)]."""
     name = cls.__name__
@@ -328,6 +398,7 @@ def _check_decode(cls, row, raw, forms=FORMS):
     if not _accept(got2, ref, row, raw):
         out.append((_classify(name, got2, ref), "%s check_raw/raw_to_value on [%s] gave %r, reference says %r"
                     % (name, _hex(raw), got2[1], ref[1])))
+    out.extend(_check_raw_forms(cls, raw, f, RAW_FORMS if ref[0] == "flag" and ref[1] != RM.INVALID else _raw_forms_for(forms, raw)))
     return out
 
 
@@ -1621,6 +1692,7 @@ def run(ctx):
     r.extra["synthetic_signed_values"] = sorted(S["rows"])
     r.extra["declaration_import_histories"] = len(hist)
     r.extra["bank_image_forms"] = list(FORMS)
+    r.extra["raw_bytes_forms"] = ["bytes"] + list(RAW_FORMS)
 
 
 if __name__ == "__main__":
